@@ -116,6 +116,7 @@ fn main() {
         "c17rows" => mat::c17rows(rest),
         "c16classes" => um::c16classes(rest),
         "c16tiny" => um::c16tiny(rest),
+        "zstdcat" => util::zstdcat(rest),
         "c14rows" => fmt::c14rows(rest),
         "c12dec" => fsex::c12dec(rest),
         "c12enc" => fsex::c12enc(rest),
